@@ -154,6 +154,14 @@ def run_path(I, c, fn, module, res):
                 finally:
                     I.old_frame = prev
                 I.ghost['_G_n'] = I.ghost['_G_n'] + 1
+                # shared lazily-built state: must satisfy its representation invariant when control is
+                # handed to the consumer, and may be in any state satisfying it when the generator resumes
+                for i, e in enumerate(c.yield_invariant):
+                    ctx.oblige(I.oname('yield-inv', node.lineno, i), I.as_goal(I.pure_eval(e, pf)), 'yield', node.lineno)
+                for path in c.yield_havoc:
+                    I.havoc_path(path, pf, {})
+                for e in c.yield_invariant:
+                    ctx.assume(I.as_goal(I.pure_eval(e, pf)))
                 if c.interference:
                     for st in I.models.reachable_streams(fr):
                         st.pos = ctx.const(st.name + '.pos!y', IntS)
